@@ -2,7 +2,8 @@
 (***************************************************************************)
 (* Validation of recorded AUTH attempts and authorisation decisions of the  *)
 (* real Authenticator / web.start_client / storages against Auth.tla.       *)
-(*   Auth     c p ok            an AUTH message and whether it was accepted *)
+(*   Auth     c p ok [who]      an AUTH message, whether it was accepted and *)
+(*                              the identity the session then names          *)
 (*   Probe    c action allowed [sid]  an EVENT (save) / REQ (query), its fate *)
 (*   Push     c sid             an EVENT frame arrived under that sub id    *)
 (*   Closed   c                 the relay closed the connection             *)
@@ -31,7 +32,9 @@ OutOK(c, pk, kind) == pk \in TD_Whitelist \/ (token[c] # <<>> /\ token[c][1] \in
 TraceNext ==
     /\ l <= Len(Trace)
     /\ CASE Line.a = "Auth" ->
-              /\ token' = IF Line.ok THEN [token EXCEPT ![Line.c] = <<Line.p.signer>>] ELSE token
+              \* (who: the identity the session was given, where the recorder can see it; else the signer is assumed and the
+              \*  probes that follow show whose roles the connection really has)
+              /\ token' = IF Line.ok THEN [token EXCEPT ![Line.c] = <<IF "who" \in DOMAIN Line THEN Line.who ELSE Line.p.signer>>] ELSE token
               /\ last' = [a |-> "auth", c |-> Line.c, p |-> Line.p, ok |-> Line.ok]
               /\ UNCHANGED <<assigned, refused>>
               /\ bad' = bad \cup {<<n, l>> : n \in (IF A!Auth(Line.c, Line.p, Line.ok) THEN {} ELSE {"Conform"}) \cup A!StepVerdict}
